@@ -322,6 +322,14 @@ def main(chk):
             if all((estimate_symbolic_duration(n.duration, int(part.quarter_duration_map(n.start.t))) or {}).get("type")
                    for n in list(part.notes_tied) + list(part.rests)):
                 break       # every written duration is a single note value (the writers have no other way to write it)
+        # a voice need not be filled with rests: in one case out of six the rests inside the second voice are taken out
+        gaps = False
+        if k % 6 in (2, 3):
+            rs = sorted((r for r in part.iter_all(score.Rest) if (r.voice or 1) == 2), key=lambda r: r.start.t)
+            inner = [r for r in rs if any(n.voice == 2 and n.start.t < r.start.t for n in part.notes_tied) and any(n.voice == 2 and n.start.t >= r.end.t for n in part.notes_tied)]
+            for r in inner:
+                part.remove(r)
+            gaps = bool(inner)
         t0 = table(part)
         chk.count(1, validated=1)
         stats[fmt] += 1
@@ -333,7 +341,7 @@ def main(chk):
             written = open(fn).read() if os.path.exists(fn) else ""
             in_file = fmt == "kern" and any(" " in tok and re.search(r"[\[\]_]", tok) for ln in written.split("\n") if not ln.startswith(("*", "!", "=")) for tok in ln.split("\t"))
             chk.violation("c2s", "export_%s.%s" % (fmt, clause), dict(case=k, **detail), replay={"file": written},
-                          op="export_" + fmt, tie_on_a_chord=bool(chord_tie or in_file), **attrs)
+                          op="export_" + fmt, tie_on_a_chord=bool(chord_tie or in_file), voice_with_inner_gaps=gaps, **attrs)
         try:
             (save_kern if fmt == "kern" else save_mei)(part, fn)
             if fmt == "kern":
@@ -345,12 +353,12 @@ def main(chk):
                     report("written_file.token_not_readable", {"tokens": unparsed[:4]})
                 else:
                     wdocs.append(d)
-                    wctx[k] = (t0, open(fn).read(), chord_tie)
+                    wctx[k] = (t0, open(fn).read(), chord_tie, gaps)
             else:
                 d = gen_mei.parse_text(open(fn, "rb").read())
                 d["cid"] = k
                 mwdocs.append(d)
-                mwctx[k] = (t0, open(fn).read())
+                mwctx[k] = (t0, open(fn).read(), gaps)
             sc2 = partitura.load_score(fn)
             t1 = sorted(x for p in sc2.parts for x in table(p))
         except Exception as ex:
@@ -367,7 +375,7 @@ def main(chk):
         if r.violated:
             chk.violation("c2s", "export_kern.written_file.invariant:" + str(r.violated), {"trace": r.error_trace[:1200]}, op="export_kern")
         got = {j["cid"]: j for j in uniq(r.json_lines())}
-        for k2, (t0, written, chord_tie) in sorted(wctx.items()):
+        for k2, (t0, written, chord_tie, gaps2) in sorted(wctx.items()):
             chk.count(1, validated=1)
             j = got.get(k2)
             if j is None:
@@ -377,11 +385,11 @@ def main(chk):
             den_t = sorted((round(float(fr(s["on"])), 5), round(float(fr(s["dur"])), 5), s["step"], s["alter"], s["octave"], staff_of.get(s["spine"], 1)) for s in j["sounding"])
             if j["bad"] or not j["aligned"]:
                 chk.violation("c2s", "export_kern.written_file.rules", {"case": k2, "rules_broken": j["bad"], "aligned_at_the_end": j["aligned"]},
-                              replay={"file": written}, op="export_kern", rules=sorted(j["bad"]), tie_on_a_chord=bool(chord_tie))
+                              replay={"file": written}, op="export_kern", rules=sorted(j["bad"]), tie_on_a_chord=bool(chord_tie), voice_with_inner_gaps=gaps2)
             elif den_t != t0:
                 chk.violation("c2s", "export_kern.written_file.denotes_the_part", {"case": k2, "missing": [x for x in t0 if x not in den_t][:3],
                                                                                  "unexpected": [x for x in den_t if x not in t0][:3]},
-                              replay={"file": written}, op="export_kern", tie_on_a_chord=bool(chord_tie))
+                              replay={"file": written}, op="export_kern", tie_on_a_chord=bool(chord_tie), voice_with_inner_gaps=gaps2)
     if mwdocs:
         path = os.path.join(tlc.workdir("c19/mwritten"), "cases.json")
         with open(path, "w") as f:
@@ -391,7 +399,7 @@ def main(chk):
         if r.violated:
             chk.violation("c2s", "export_mei.written_file.invariant:" + str(r.violated), {"trace": r.error_trace[:1200]}, op="export_mei")
         got = {j["cid"]: j for j in uniq(r.json_lines())}
-        for k2, (t0, written) in sorted(mwctx.items()):
+        for k2, (t0, written, gaps2) in sorted(mwctx.items()):
             chk.count(1, validated=1)
             j = got.get(k2)
             if j is None:
@@ -401,11 +409,11 @@ def main(chk):
             den_t = sorted((round(float(fr(s["on"])), 5), round(float(fr(s["dur"])), 5), s["step"], s["alter"], s["octave"], s["staff"]) for s in j["sounding"])
             if j["bad"] or not j["ties_ok"]:
                 chk.violation("c2s", "export_mei.written_file.rules", {"case": k2, "rules_broken": j["bad"], "ties_join_equal_pitches": j["ties_ok"]},
-                              replay={"file": written[:20000]}, op="export_mei", rules=sorted(j["bad"]))
+                              replay={"file": written[:20000]}, op="export_mei", rules=sorted(j["bad"]), voice_with_inner_gaps=gaps2)
             elif den_t != t0:
                 chk.violation("c2s", "export_mei.written_file.denotes_the_part", {"case": k2, "missing": [x for x in t0 if x not in den_t][:3],
                                                                                 "unexpected": [x for x in den_t if x not in t0][:3]},
-                              replay={"file": written[:20000]}, op="export_mei")
+                              replay={"file": written[:20000]}, op="export_mei", voice_with_inner_gaps=gaps2)
     chk.part("export_import", **stats)
     chk.assumptions += ["MEI: one part per staffDef, meter / key / clef on the staffDef as attributes or children, meter changes by scoreDef, layers filled completely",
                         "export/import: parts with one or two staves and voices whose written durations are single note values; MEI export without tuplets (the writer needs Tuplet objects)"]
